@@ -107,7 +107,7 @@ def run(chk):
     res = ex.run_fn(fn, [Ptr('sm'), Tree({}, 'finish', 'std::time::SystemTime'), Tree({}, 'start', 'std::time::Instant'), Tree({}, 'now', 'time::ComplexTime')], State())
     explored['report_waited_for_reboot_duration'] = {'paths': panic_free(chk, Dp, ex, res, 'report_waited_for_reboot_duration')}
     chk.absorb(ex)
-    ex, res = explore_puc(chk, 'loop', 1)
+    ex, res = explore_puc(chk, 'loop-anyclock', 1)
     explored['attempt_loop'] = {'paths': panic_free(chk, Dp, ex, res, 'attempt loop')}
     chk.absorb(ex)
     for D in (Dp, Ds):
